@@ -59,6 +59,9 @@ func checkC05(c *Ctx, r *Report) {
 	nodeIDFormat(c, r, "C05.R4.nodeid-format")
 	resetOnConvert(c, r, "C05.R2.rfc3597-reset", "a reused RFC3597 value keeps the Rdata of the record converted before: the generic form printed for an RDATA-less record shows another record's octets")
 	keywordCase(c, r, "C05.R2.keyword-case")
+	dddDigits(c, r, "C05.R3.ddd-digits")
+	separatorCount(c, r, "C05.R1.separator-count")
+	tablesInStep(c, r, "C05.R2.tables-in-step")
 }
 
 // c05R5: numeric limit agreement: the TTL parser accepts exactly the range the 32-bit header field (and its printer) has.
